@@ -852,6 +852,34 @@ class Interp:
 
     e_GeneratorExp = e_ListComp
 
+    def e_SetComp(self, e, frame):
+        out = []
+        r = self.e_ListComp(e, frame)
+        if isinstance(r, Residual):
+            return r
+        for x in r:
+            if x not in out:
+                out.append(x)
+        return out
+
+    def e_DictComp(self, e, frame):
+        if len(e.generators) != 1:
+            raise Undecidable(f"nested comprehension {unparse(e)}")
+        g = e.generators[0]
+        it = self.eval(g.iter, frame)
+        if isinstance(it, Residual):
+            return Residual(unparse(e))
+        out = {}
+        inner = dict(frame)
+        for item in list(it):
+            self.assign(g.target, item, inner)
+            if all(self.truth(self.eval(c, inner)) for c in g.ifs):
+                k = self.eval(e.key, inner)
+                if isinstance(k, (Residual, Obj, list, dict)):
+                    raise Undecidable(f"symbolic key in {unparse(e)}")
+                out[k] = self.eval(e.value, inner)
+        return out
+
     def e_Call(self, e, frame):
         full = unparse(e)
         if full in self.store:
